@@ -503,7 +503,9 @@ class IndexReader(object):
                 yield (vec.id(), vec.weight())
                 vec.next()
         else:
-            format_ = self.schema[fieldname].format
+            # The vector's values are encoded in the field's vector format,
+            # which may be different from the format of the field's postings
+            format_ = self.schema[fieldname].vector
             decoder = format_.decoder(astype)
             while vec.is_active():
                 yield (vec.id(), decoder(vec.value()))
